@@ -597,7 +597,10 @@ def m_ne(ex, site, a):
         b = ex.prog.find_method(tyc, 'PartialEq', 'ne')
         if b is None:
             b = ex.prog.find_method(tyc, 'PartialEq', 'eq')
-            if b is not None: return znot(ex.call_body(b, [a[0], a[1]]))
+            if b is not None:
+                x, y = a[0], a[1]
+                for _ in range(len(site.self_ty) - len(site.self_ty.lstrip('&'))): x = ex.load(x); y = ex.load(y)
+                return znot(ex.call_body(b, [x, y]))
     return znot(values_eq(ex, a[0], a[1]))
 
 
